@@ -1,5 +1,6 @@
 """C10: updown list is a lossless summary of each sequence relative to the reference."""
 import common as cm
+import cmdlayer
 import gen
 
 IMPORTS = ["Base", "Harness", "Check_C10"]
@@ -76,3 +77,16 @@ def generate(ctx):
         cs.append(make_case(cid, refb, alnb2, {"kind": "malformed:" + kind, "nontrivial": False}))
         cid += 1
     return cs
+
+
+def extra(ctx, obl, cases, obs):
+    """the command through the built binary (cmd/*.go): binary = library entry point, and the option handling the command does itself"""
+    n = 2 if ctx.tier == "quick" else 12
+    _cmd_state["binary_runs"] = cmdlayer.updown_layer(ctx, 'list', n)
+
+
+_cmd_state = {}
+
+
+def coverage_extra(ctx):
+    return {"binary_runs": _cmd_state.get("binary_runs", 0)}
